@@ -543,7 +543,7 @@ func buildRows(ipver int) []row {
 			}})
 		for _, leg := range []string{"a_to_b", "b_to_a"} {
 			leg := leg
-			rows = append(rows, row{ipver: ipver, gostruct: "conntrack.Value.Data()", cfield: "ct_value." + leg + "+ct_leg." + lb.c, kind: "bit-dec",
+			rows = append(rows, row{ipver: ipver, gostruct: "conntrack.Value.Data()", cfield: "ct_value." + leg + "+ct_leg." + lb.c, kind: "bit-dec", covers: []string{"ct_value." + leg},
 				check: func(L *cLayout) *mismatch {
 					cimg, ok := L.bit["ct_leg."+lb.c]
 					if !ok {
